@@ -56,6 +56,12 @@ def run_translator():
         # The previously generated file stays (so that the machinery still builds) and every property is
         # reported with a broken proof obligation: its theorems no longer speak about the current source.
         failures.append("translator/translate.py cannot regenerate Gen/Consts.lean from the current source: " + (out + err).strip()[-600:])
+    # straight-line numeric / decision kernels (DESIGN 14.8): a function that can no longer be read becomes an
+    # `-- UNREADABLE` stub, so that its tie theorem (lean/SimVerif/Tie/*.lean) fails: a broken obligation, not a pass
+    kt = os.path.join(ROOT, "translator", "kernels.py")
+    rc, out, err = sh([sys.executable, kt, REPO, os.path.join(LEAN, "SimVerif", "Gen")])
+    if rc != 0:
+        failures.append("translator/kernels.py failed: " + (out + err).strip()[-600:])
     # the Python-binding table (C18). If the bindings can no longer be read into the wrapper calculus the
     # table is emptied, so that C18's completeness theorem fails and the check reports it (no machinery error)
     pt = os.path.join(ROOT, "translator", "pytable.py")
